@@ -252,8 +252,9 @@ Ambiguous(c, sym) ==
                maxp == IF fin = {} THEN 0 ELSE top.cl[CHOOSE i \in fin : \A j \in fin : top.cl[j].prio <= top.cl[i].prio].prio
                cont == \E i \in live : PDS(top.cl[i].S, sym) # {}
            IN IF top.greedy
-              THEN \/ Cardinality({i \in fin : top.cl[i].prio = maxp}) > 1                  \* no unique highest priority
-                   \/ (fin # {} /\ cont /\ \E i \in fin : top.cl[i].prio = maxp /\ AccK(Push(FS(top.cl[i].b), rest), sym))
+              \* a greedy case keeps consuming while any pattern can continue (maximal munch is its documented meaning - the lexer of
+              \* example/lexer.nmfu relies on it): a symbol that continues a pattern is never a candidate start of what follows
+              THEN Cardinality({i \in fin : top.cl[i].prio = maxp}) > 1                     \* no unique highest priority
               ELSE \/ Cardinality(fin) > 1                                                  \* a string matches two clauses
                    \/ (fin # {} /\ Cardinality(live) > 1)                                   \* matches one while another could continue
                    \/ (fin # {} /\ cont /\ \E i \in fin : AccK(Push(FS(top.cl[i].b), rest), sym))
